@@ -388,7 +388,7 @@ func main() {
 		inputs = append(inputs, h)
 	} else {
 		inputs = append(inputs, corpus()...)
-		n := o.Count(110, 3000)
+		n := o.Count(90, 3000)
 		if o.Search {
 			n = o.Count(1200, 3000)
 		}
